@@ -132,3 +132,29 @@ Definition judge_c17 (g : cfg) (u : unit) (o : obs) : list N * unit :=
 Definition mon_c17 (cs : list N) : list N :=
   let t := dec_trace cs in
   if negb (tr_ok t) then [0; V_BADCASE] else run_mon judge_c17 (tr_cfg t) tt 0 (tr_obs t).
+
+(* ---------------- C09 at the connection level ---------------- *)
+(* Connection::recv consumes exactly what the framing model consumes from the buffer (at most one
+   packet; after an over-long Remaining Length framing resumes at the next byte), produces no event
+   for an incomplete frame, and keeps the partial frame the model keeps.  The framing model is the
+   one proved chunking-independent in Framing/FramingProofs.v. *)
+Definition judge_c09 (g : cfg) (u : unit) (o : obs) : list N * unit :=
+  if ob_pan o then ([], u) else
+  match ob_op o with
+  | ORecv bytes _ =>
+    let '(r, pb', rest) := feed (c_pb (ob_pre o)) bytes in
+    if negb (nlist_eqb (ob_ret o) [N.of_nat (length rest)]) then ([1; N.of_nat (length rest)], u)
+    else match r with
+         | FIncomplete =>
+           if negb (match ob_evs o with [] => true | _ => false end) then ([2], u)
+           else if negb (nlist_eqb (enc_group F_PB (set_pb (ob_pre o) pb')) (enc_group F_PB (ob_post o))) then ([3], u)
+           else ([], u)
+         | FError _ => if existsb is_error (ob_evs o) then ([], u) else ([4], u)
+         | FComplete _ _ => ([], u)
+         end
+  | _ => ([], u)
+  end.
+
+Definition mon_c09 (cs : list N) : list N :=
+  let t := dec_trace cs in
+  if negb (tr_ok t) then [0; V_BADCASE] else run_mon judge_c09 (tr_cfg t) tt 0 (tr_obs t).
